@@ -23,7 +23,7 @@ CHECKS = {
          "4 C04"),
  "C07": ("model_checking",
          "reference-model trace conformance: independent executable model (refhtml) vs implementation, compared field by field on every state of a bounded-exhaustive trie search, in all five contexts",
-         "For every string over the HTML byte alphabet (<=5; 20-symbol core to 6-7 in thorough), the fragment alphabet (<=4/<=5) and every fixture cut, in each of the five start contexts, the model's trace (token type/offset/length stream and per-context verdict; IsXSS = OR) is compared with the implementation's; tag/attribute/URL predicates are compared on every list entry x case/NUL/near-miss variants and on URL-fragment strings.",
+         "For every string over the HTML byte alphabet (<=5; 20-symbol core to 6-7 in thorough), the fragment alphabet (<=4/<=5) and every fixture cut, in each of the five start contexts, the model's trace (token type/offset/length stream and per-context verdict; IsXSS = OR) is compared with the implementation's; tag/attribute/URL predicates are compared on every list entry x case/NUL/Unicode-folding/near-miss variants and on URL-fragment strings. Closure of the tokenizer/classifier automaton: breadth-first over the model's control state at end of input from the five start contexts over the union alphabet (about 1200 states, fixpoint at depth 13, 87 k transitions x 25 distinguishing suffixes validated on the implementation): inputs of every length.",
          "The model mirrors five deliberate port-level behaviours (DESIGN.md section 6); it reads the project's own lists through the hooks. Conformance beyond the enumerated levels is not claimed.",
          "4 C07"),
  "C11": ("model_checking",
@@ -57,8 +57,8 @@ CHECKS = {
          "The guarantee is exactly the enumerated grammar; the check never re-calibrates at run time.",
          "4 C03"),
  "C06": ("model_checking",
-         "reference-model trace conformance: independent executable model (refsql) vs implementation, compared field by field on every state of a bounded-exhaustive trie search in all six parsing modes",
-         "For every string over the SQL byte alphabet (<=3; 30-symbol core to 4/5), the fragment alphabet (<=3/<=4), the token-class alphabet (<=3/<=4; 16-class core to 5/6-7 tokens, which reaches the 5-token special cases and the look-ahead token) and every fixture cut, in each of the six modes: scan steps with offsets and all token fields, folded window, statistics, fingerprint, blacklist bit and verdict of the model are compared with the implementation; plus the public cascade.",
+         "reference-model trace conformance (independent executable model refsql vs implementation, field by field) on every state of a bounded-exhaustive trie search in all six modes + explicit-state closure of the folder automaton with every transition validated on the implementation",
+         "For every string over the SQL byte alphabet (<=3; 30-symbol core to 4/5), the fragment alphabet (<=3/<=4), the token-class alphabet (<=3/<=4; 16-class core to 5/6-7 tokens, which reaches the 5-token special cases and the look-ahead token) and every fixture cut, in each of the six modes: scan steps with offsets and all token fields, folded window, statistics, fingerprint, blacklist bit and verdict of the model are compared with the implementation; plus the public cascade. E-FOLD: breadth-first closure of the folder automaton over the 16-class core (state = the model's folder configuration at end of input; every transition validated on the implementation; quick 5 levels, thorough to the fixpoint of about 1.04 M configurations per mode, i.e. token sequences of every length). Extra spaces: the 48 literal words / prefix forms the folder compares, 14 prefix states, token-length boundaries.",
          "The model takes the project's keyword table as data and mirrors the port-level behaviours listed in DESIGN.md section 6. Conformance beyond the enumerated levels is not claimed.",
          "4 C06"),
  "C08": ("model_checking",
@@ -98,12 +98,12 @@ CHECKS = {
          "4 C20"),
  "C05": ("model_checking",
          "explicit-state closure over call histories (state = digest of all package-level state, fixpoint) + stateless schedule exploration of the auto-instrumented implementation under a cooperative scheduler with iterative preemption bounding and a happens-before race monitor",
-         "E-HIST: from every reachable package state (digest of everything reachable from every package-level variable incl. pooled objects) each of 48 colliding IsSQLi/IsXSS operations is applied to the real code and compared with the fresh-process reference and the reference models; on the unchanged tree the closure is one state, which by induction covers every history. E-SCHED: every interleaving of 2 concurrent calls (78 input pairs; 2x2 calls; 3 threads in thorough) within the preemption bound, at scheduling points inserted by vinstr at every package-level variable access, sync/atomic/pool operation and (per config) function entry / loop iteration, checked for result = sequential reference, data races (vector clocks), deadlock, panics; every failing schedule is replayed and must reproduce. A free-running `go test -race` pass over the same bodies is auxiliary.",
+         "E-HIST: from every reachable package state (digest of everything reachable from every package-level variable incl. pooled objects) each of 72 colliding IsSQLi/IsXSS operations (incl. same-fingerprint / different-verdict pairs and 70 KB inputs) is applied to the real code and compared with the fresh-process reference and the reference models; on the unchanged tree the closure is one state, which by induction covers every history. E-SCHED: every interleaving of 2 concurrent calls (78 input pairs; 2x2 calls; 3 threads in thorough) within the preemption bound; long linear histories (700 / 6000 calls) and pumped histories A.N^k.B with k on the 8-bit wrap boundaries; scheduling points inserted by vinstr at every package-level variable access, sync/atomic/pool operation and (per config) function entry / loop iteration, checked for result = sequential reference, data races (vector clocks), deadlock, panics; every failing schedule is replayed and must reproduce. A free-running `go test -race` pass over the same bodies is auxiliary.",
          "Sequentially consistent, preemption-bounded (bound 2; statement-level configs bound 1-2 in thorough, caps reported). State reachable only through closures/unsafe is outside the digest. Instrumentation is generated from /repo's working tree at check time.",
          "4 C05"),
  "C09": ("model_checking",
          "exhaustive enumeration of repetition families on the auto-instrumented implementation with a deterministic work counter (cost model), growth-ratio and per-byte budget oracles",
-         "Every family opener + unit^k for every unit of length <=2 (<=3 thorough) over the state-changing SQL / HTML symbols x 8 openers is run at 4 KB, 16 KB and 64 KB on the instrumented build; the deterministic work count (loop iterations + function entries + bytes scanned by strings/bytes calls + concatenation/conversion sizes) must grow by at most 6x per 4x length (linear 4, quadratic 16) and stay under 2000 units per byte, enforced as a budget. Decided by exact integers, identical on every run; wall-clock only recorded.",
+         "Every family opener + unit^k for every unit of length <=2 (<=3 thorough) over 47 SQL / 33 HTML symbols and atoms (state-changing bytes, keywords, complete tokens, markup openers) x 10 / 12 openers is run at 4 KB, 16 KB and 64 KB on the instrumented build; the deterministic work count (loop iterations + function entries + bytes scanned by strings/bytes calls + concatenation / conversion / append-spread / copy / += sizes) must grow by at most 6x per 4x length (linear 4, quadratic 16) and stay under 2000 units per byte, enforced as a budget. Decided by exact integers, identical on every run; wall-clock only recorded.",
          "Real time <= c * work holds for all statements except costs hidden inside == on long strings and strings.Builder internals (stated in the evidence). Families outside the enumerated units are not covered.",
          "4 C09"),
 }
